@@ -291,7 +291,53 @@ def _details_attached(spec, f, fid):
     return True
 
 
-SUBCHECKS = {"prog": x_prog, "rerun": x_rerun}
+def x_equal_details(ctx, case):
+    """Details that COMPARE EQUAL (Content.__eq__: same type, same bytes) are still details of their own: two fixtures
+    whose 'log' is empty / holds the same line, a user detail equal to a fixture's - each arrives under a name of its
+    own (renamed, never dropped)."""
+    import re
+    import fixtures
+    import testtools
+    from testtools.content import Content
+    from testtools.content_type import UTF8_TEXT
+    chunkings = case["chunkings"]          # one list of hex chunks per holder; all the same bytes
+
+    def content(chunks):
+        return Content(UTF8_TEXT, lambda c=chunks: [bytes.fromhex(h) for h in c])
+
+    class Fx(fixtures.Fixture):
+        def __init__(self, chunks):
+            super().__init__()
+            self.chunks = chunks
+
+        def _setUp(self):
+            self.addDetail("log", content(self.chunks))
+            if case.get("setup_fails"):
+                raise ValueError("fixture broke")
+
+    class T(testtools.TestCase):
+        def test(self):
+            if case.get("user_first"):
+                self.addDetail("log", content(chunkings[0]))
+            for ch in chunkings[1 if case.get("user_first") else 0:]:
+                try:
+                    self.useFixture(Fx(ch))
+                except Exception:  # noqa - (MultipleExceptions holding the fixture's error: the test carries on)
+                    pass
+            if case.get("fail"):
+                self.fail("the test fails")
+    log = recorders.Log()
+    T("test").run(recorders.ExtRecorder(log))
+    outs = [e for e in log.events if e.name in recorders.OUTCOMES]
+    got = (outs[0].payload["details"] or {}) if len(outs) == 1 else {}
+    data = b"".join(bytes.fromhex(h) for h in chunkings[0])
+    logs = sorted(n for n, (ctype, b) in got.items() if re.fullmatch(r"log(-\d+)?", n) and b == data)
+    ctx.check(len(outs) == 1 and len(logs) == len(chunkings), "fixture.detail-delivered",
+              lambda: {"holders of an equal 'log' detail": len(chunkings), "delivered": sorted(got), "case": case})
+    return True
+
+
+SUBCHECKS = {"prog": x_prog, "rerun": x_rerun, "equal_details": x_equal_details}
 
 FEATURES = ("details", "expect", "mismatch_details", "fixture", "onexc", "nested_cleanup", "decor",
             "own_exc", "force", "clone", "eq_exc", "peek", "old_style_fixture")
@@ -407,6 +453,20 @@ def targeted(ctx):
 def run(ctx):
     rng = ctx.rng
     targeted(ctx)
+    n = 0
+    for data in ([], ["6c696e650a"], ["6c69", "6e650a"]):
+        for k in (2, 3):
+            for user_first in (False, True):
+                for fail in (False, True):
+                    for setup_fails in (False, True):
+                        if ctx.mine():
+                            n += 1
+                            alt = [["6c", "696e650a"]] if data else [[""]]
+                            chunkings = ([list(data)] * (k - 1)) + (alt if k > 2 or user_first else [list(data)])
+                            ctx.execute("equal_details", {"chunkings": chunkings, "user_first": user_first, "fail": fail,
+                                                          "setup_fails": setup_fails})
+    ctx.note_space("2-3 holders (fixtures, the test itself) of details that compare equal (empty, one line, chunked "
+                   "differently) x passing / failing test x fixtures setting up / failing", n)
     ctx.notes["random_cases"] = True
     for i in range(ctx.scale(4000, 300000)):
         if ctx.out_of_time():
@@ -421,5 +481,5 @@ def run(ctx):
         if r < 0.15:
             case["runner"] = "sync"
         elif r < 0.3 and not prog.get("decor"):
-            case["runner"] = "async"
+            case["runner"] = rng.choice(["async", "async_store"])
         ctx.execute("rerun" if rng.random() < 0.2 and not program_has_late_state(prog) else "prog", case)
